@@ -61,6 +61,8 @@ pub fn instantiate(
 }
 
 pub fn create_accounts(deps: &mut DepsMut, accounts: &[Cw20Coin]) -> StdResult<Uint128> {
+    validate_accounts(accounts)?;
+
     let mut total_supply = Uint128::zero();
     for row in accounts {
         let address = deps.api.addr_canonicalize(&row.address)?;
@@ -68,6 +70,20 @@ pub fn create_accounts(deps: &mut DepsMut, accounts: &[Cw20Coin]) -> StdResult<U
         total_supply += row.amount;
     }
     Ok(total_supply)
+}
+
+/// A repeated address would have its balance overwritten while both amounts are added to the
+/// total supply; reject such a list, as upstream cw20-base does.
+pub fn validate_accounts(accounts: &[Cw20Coin]) -> StdResult<()> {
+    let mut addresses = accounts.iter().map(|c| &c.address).collect::<Vec<_>>();
+    addresses.sort();
+    addresses.dedup();
+
+    if addresses.len() != accounts.len() {
+        Err(StdError::generic_err("Duplicate initial balance addresses"))
+    } else {
+        Ok(())
+    }
 }
 
 #[cfg_attr(not(feature = "library"), entry_point)]
